@@ -255,6 +255,12 @@ def unary(E, op, a, node=None):
             return z3.If(alg.cmp("gt", v[0], zero, d), v[0], zero) if not (d in sym.FLOAT_DTYPES and alg.floatmode == "F") else \
                 z3.If(z3.fpIsNaN(v[0]), v[0], z3.If(z3.fpGT(v[0], zero), v[0], zero))
         return pointwise(E, op, [a], node, fn=f)
+    if op == "reciprocal":
+        def f(alg, v, d):
+            one = alg.const(1, d)
+            return alg.binop("truediv", one, v[0], d)
+        cd = "float32" if a.dtype in sym.INT_DTYPES else None
+        return pointwise(E, op, [a], node, compute_dtype=cd, fn=f)
     raise Unsupported(f"unary {op}")
 
 
@@ -687,7 +693,7 @@ TENSOR_METHODS.update({
     "requires_grad_": lambda E, t, v=True: t,
     "dequantize": lambda E, t: raise_(E, "NotImplementedError", "dequantize on a plain tensor is aten.dequantize (not supported)"),
 })
-for _n in ["reshape", "view", "permute", "t", "transpose", "expand", "unsqueeze", "squeeze", "select", "flatten",
+for _n in ["reciprocal", "reshape", "view", "permute", "t", "transpose", "expand", "unsqueeze", "squeeze", "select", "flatten",
            "contiguous", "clone", "detach", "abs", "neg", "round", "clamp", "relu", "mul", "div", "add", "sub", "lt",
            "amax", "amin", "max", "min", "sum", "matmul", "mm", "bmm", "split", "chunk", "copy_", "all", "any", "equal",
            "bitwise_and", "bitwise_right_shift", "__lshift__", "__rshift__", "is_same_size", "where", "softmax", "eq",
@@ -784,6 +790,7 @@ ATEN = {
     "neg": lambda E, a: unary(E, "neg", a), "abs": lambda E, a: unary(E, "abs", a),
     "round": lambda E, a: unary(E, "round", a), "relu": lambda E, a: unary(E, "relu", a),
     "clamp": lambda E, a, min=None, max=None: clamp(E, a, min, max),
+    "reciprocal": lambda E, a: unary(E, "reciprocal", a),
     "where": lambda E, c, a, b: where(E, c, a, b),
     "amax": _amax("amax"), "amin": _amax("amin"),
     "max": _max("amax"), "min": _max("amin"),
@@ -859,7 +866,7 @@ TORCH_FUNCS = {
     "zeros": _zeros_like(0), "ones": _zeros_like(1), "arange": _arange, "tensor": _tensor,
     "is_tensor": lambda E, x: isinstance(x, STensor) or is_wrapper(x),
 }
-for _n in ["abs", "neg", "round", "clamp", "relu", "amax", "amin", "max", "min", "all", "equal", "where", "mul", "div",
+for _n in ["reciprocal", "abs", "neg", "round", "clamp", "relu", "amax", "amin", "max", "min", "all", "equal", "where", "mul", "div",
            "add", "sub", "lt", "cat", "stack", "matmul", "mm", "bmm", "squeeze", "unsqueeze", "reshape", "permute",
            "transpose", "t", "split", "chunk", "bitwise_and", "bitwise_right_shift", "bitwise_left_shift", "flatten",
            "sum", "isnan", "isinf", "isfinite", "clone", "_int_mm", "_weight_int8pack_mm", "softmax", "any"]:
